@@ -670,7 +670,10 @@ func (s *ClientSession) notifyDoResultSucc() {
 	}
 
 	//pull有可能还需要小包发送，不使用缓存
-	if s.sessionStat.BaseType() == base.SessionBaseTypePushStr {
+	if s.sessionStat.BaseType() == base.SessionBaseTypePushStr && s.option.WriteBufSize > 0 {
+		// 注意，只有显式配置了缓冲大小才使用写缓冲。大小为0时如果也调用ModWriteBufSize，
+		// 底层会创建一个默认大小（4096字节）的bufio.Writer，而上层（比如relay push）并不会调用Flush，
+		// 导致数据滞留在缓冲中，对端收到的数据落后于推流端，并且会话结束时尾部数据丢失
 		s.conn.ModWriteBufSize(s.option.WriteBufSize)
 	}
 
